@@ -1428,6 +1428,8 @@ class FnTranslator:
             return self.if_stmt(s.e, code)
         if k in LOOP_KINDS and self.loop_is_x(s):
             return self.loop_x(s, code, None, None)
+        if k == "for" and zip_parts(s.iter) is not None:
+            return self.for_zip(s, code)
         if k == "while":
             return self.while_(s, code)
         if k == "for":
@@ -1547,8 +1549,13 @@ class FnTranslator:
         if e.kind == "macro" and e.name in ("assert_eq", "debug_assert_eq") and len(e.args) >= 2:
             cmp_ = N("bin", e.pos, op="==", l=e.args[0], r=e.args[1])
             c, t = self.expr(cmp_, code, TBool())
-            for x in e.args[2:]:
+            for x in e.args[2:3]:
                 if x.kind != "str":
+                    self.err("`assert_eq!` with format arguments", e)
+            for x in e.args[3:]:
+                # format arguments after the message string are only evaluated when the assertion fails (genpm): they
+                # must be effect-free apart from panics — variables, fields, `.len()`
+                if contains_kind(x, ("call", "macro", "index", "bin", "struct", "if", "match")):
                     self.err("`assert_eq!` with format arguments", e)
             code.bind("_", ("call", "Rs.assert %s" % atom(c)))
             return
@@ -1835,6 +1842,48 @@ class FnTranslator:
         out_pat = tuple_pat([v.lean for v in state] + ([seq_var.lean] if it_mut else []))
         code.bind(out_pat, ("call", "%s.foldlM %s %s" % (atom(lst), atom(name + self.abs_args() + "".join(" " + v.lean for v in caps)), init)))
 
+
+    def for_zip(self, s, code):
+        """`for (a, b) in xs.iter().zip(ys)`: `List.foldlM` of a named body function over `List.zip xs ys` (genpm)"""
+        self.n_for += 1
+        name = "%s_for%d" % (self.lean_fn, self.n_for)
+        le, re_ = zip_parts(s.iter)
+        l, lt = self.expr(le, code)
+        r, rt = self.expr(re_, code)
+        if not (isinstance(lt, TSeq) and isinstance(rt, TSeq)):
+            self.err("`.zip` of %r and %r" % (lt, rt), s)
+        if s.pat.kind != "ptuple" or len(s.pat.items) != 2 or any(p.kind != "pid" for p in s.pat.items):
+            self.err("pattern of a `.zip()` loop must be `(a, b)`", s.pat)
+        loopvars = [(s.pat.items[0].name, lt.elem), (s.pat.items[1].name, rt.elem)]
+        state = self.outer_vars(self.assigned(N("for", s.pos, pat=s.pat, iter=s.iter, body=s.body)), s)
+        caps = self.captured(s.body, [v.rust for v in state], [lv[0] for lv in loopvars])
+        saved_scopes, saved_tail = self.scopes, self.tail_expected
+        self.tail_expected = None
+        self.scopes = [dict((v.rust, Var(v.rust, v.lean, v.ty)) for v in caps + state)]
+        lvs = []
+        for nm, t in loopvars:
+            for sc in saved_scopes:
+                if nm in sc and nm != "_":
+                    self.err("loop variable `%s` shadows a variable of an enclosing block (not translated)" % nm, s)
+            lvs.append(self.declare(nm, t, s, mutable=False, nested_ok=True))
+        self.loop_depth += 1
+        try:
+            body = Code()
+            self.block(self.unit_block(s.body), body, False)
+            body.final = ("pure", tuple_val([v.lean for v in state]))
+        finally:
+            self.scopes, self.tail_expected = saved_scopes, saved_tail
+            self.loop_depth -= 1
+        st_ty = tuple_ty([v.ty for v in state])
+        el_ty = tuple_ty([v.ty for v in lvs])
+        lines = ["/-- body of `for %s` (line %d) -/" % (self.src_text(s, None)[4:].strip(), self.src.line_of(s.pos)),
+                 "%s : %s → %s → Res %s" % (self.helper_header(name, caps), paren_ty(st_ty), paren_ty(el_ty), paren_ty(st_ty)),
+                 "  | %s, %s => do" % (tuple_pat([v.lean for v in state]), tuple_pat([v.lean for v in lvs]))]
+        emit_code(body, 4, lines)
+        self.helpers.append("\n".join(lines))
+        code.bind(tuple_pat([v.lean for v in state]),
+                  ("call", "(List.zip %s %s).foldlM %s %s" % (atom(l), atom(r), atom(name + self.abs_args() + "".join(" " + v.lean for v in caps)),
+                                                            tuple_val([v.lean for v in state]))))
 
     # ================================================================ control flow with exits (genpm)
     # `loop`, `break`, `return` inside loops, `match` on `Option`, `for pat in it.by_ref()` over an iterator state.
@@ -2315,6 +2364,20 @@ def self_path(e):
     return None
 
 
+def zip_parts(it):
+    """`xs.iter().zip(ys)` / `xs.iter().zip(ys.iter())` → (xs, ys) expressions, else None (genpm)"""
+    while it.kind == "paren":
+        it = it.e
+    if not (it.kind == "mcall" and it.name == "zip" and len(it.args) == 1):
+        return None
+    def strip(x):
+        while x.kind == "paren" or (x.kind == "un" and x.op == "&") or \
+                (x.kind == "mcall" and x.name in ("iter", "into_iter") and not x.args):
+            x = x.e if x.kind in ("paren", "un") else x.recv
+        return x
+    return strip(it.recv), strip(it.args[0])
+
+
 def method_key(e):
     """key of a method call on `self` or on a struct reachable from it: `self.kmp.delta(..)` → "self.kmp.delta" (genpm)"""
     r = e.recv
@@ -2382,6 +2445,8 @@ def translate_unit(src, unit, fail):
     for f in unit["functions"]:
         what = "fn %s" % f["name"]
         rx = header_regex(f["header"])
+        if f.get("toplevel"):
+            rx = r"(?m)^" + rx          # the item at column 0 (a function of the same name inside a nested `mod` is another one) (genpm)
         ms = list(re.finditer(rx, src.code))
         if len(ms) != 1:
             fail("%s: %s: expected exactly one function with the header `%s`, found %d (signature changed, renamed or "
@@ -2613,6 +2678,17 @@ unit(name="SrcBndmNext", props="property C08", file="src/pattern_matching/bndm.r
                      # unit than the model's fuel for the final test of the condition
                      fuel=["text.length - window + 2", "m + 2"],
                      params=[], ret="Option<usize>", theorem="RbV.Thm.GenSrcBndmNext.next_eq_model")])
+
+
+# ---- genpm: distance functions and approximate matchers (C09) -------------------------------------------------------
+
+unit(name="SrcHamming", props="property C09", file="src/alignment/distance.rs",
+     aliases={"TextSlice": "&[u8]"},
+     functions=[dict(name="hamming", lean="hamming",
+                     header="pub fn hamming(alpha: TextSlice<'_>, beta: TextSlice<'_>) -> u64",
+                     toplevel=True,        # `simd::hamming` in the same file has the same header
+                     params=[("alpha", "TextSlice"), ("beta", "TextSlice")], ret="u64", locals={"dist": "u64"},
+                     theorem="RbV.Thm.GenSrcHamming.hamming_eq_model")])
 
 
 # ================================================================================================== self-test
